@@ -180,6 +180,24 @@ where
             ensure!((aa == bb) == (a == b), "eq({:#x},{:#x})", a, b);
             ensure!((aa < bb) == (a < b) && (aa <= bb) == (a <= b) && (aa > bb) == (a > b) && (aa >= bb) == (a >= b), "ordering operators");
             ensure!(std::cmp::max(aa, bb).raw_value() == a.max(b), "max");
+            // every provided method of Ord / PartialEq, in both argument orders (a hand-written
+            // impl may override any of them), and the std algorithms built on the ordering
+            ensure!(std::cmp::min(aa, bb).raw_value() == a.min(b), "min({:#x},{:#x}) = {:#x}", a, b, std::cmp::min(aa, bb).raw_value());
+            ensure!(Ord::max(bb, aa).raw_value() == a.max(b) && Ord::min(bb, aa).raw_value() == a.min(b), "max/min({:#x},{:#x}) with the arguments swapped", b, a);
+            ensure!((aa != bb) == (a != b) && (bb == aa) == (a == b), "ne({:#x},{:#x})", a, b);
+            ensure!(bb.cmp(&aa) == b.cmp(&a) && bb.partial_cmp(&aa) == Some(b.cmp(&a)), "cmp({:#x},{:#x}) with the arguments swapped", b, a);
+            let (lo, hi) = (a.min(b), a.max(b));
+            for c in [a, b, op ^ a, lo.wrapping_sub(1), hi.wrapping_add(1), lo / 2 + hi / 2] {
+                let got = A::new(c).clamp(A::new(lo), A::new(hi)).raw_value();
+                ensure!(got == c.clamp(lo, hi), "{:#x}.clamp({:#x},{:#x}) = {:#x}", c, lo, hi, got);
+            }
+            let third = lo / 2 + hi / 2;
+            let mut v = [aa, bb, A::new(third)];
+            let mut w = [a, b, third];
+            v.sort();
+            w.sort();
+            ensure!(v.iter().map(|x| x.raw_value()).eq(w.iter().copied()), "sort([{:#x},{:#x},{:#x}])", a, b, third);
+            ensure!(v.iter().min().map(|x| x.raw_value()) == w.iter().min().copied() && v.iter().max().map(|x| x.raw_value()) == w.iter().max().copied(), "Iterator::min/max");
             let d = (a as i128 - b as i128).abs();
             if d <= 4 || (a >> 63) != (b >> 63) {
                 cx.nt("cmp_close_or_sign");
@@ -224,7 +242,7 @@ fn gen_align(_tier: Tier) -> Box<dyn Iterator<Item = Vec<u64>>> {
 pub fn property() -> Property {
     Property {
         id: "C19",
-        rule: "operand pairs = full cross product of a ~330-value boundary set (0, 2^32, 2^63, 2^64 +-4, all 2^k, 2^k+-1) for every operation and both address types (exhaustive sub-domain), all 64 alignments x boundary set, plus random 64-bit pairs; non-trivial = exact result does not fit in 64 bits or lies within 4 of 0 / 2^64 (or for bit/compare ops: mixed bits / close or sign-differing operands); distinct = decoded (type, op, a, b)",
+        rule: "operand pairs = full cross product of a ~330-value boundary set (0, 2^32, 2^63, 2^64 +-4, all 2^k, 2^k+-1) for every operation and both address types (exhaustive sub-domain), all 64 alignments x boundary set, plus random 64-bit pairs; the compare operation covers cmp/partial_cmp/==/!=/</<=/>/>= and max/min in both argument orders, clamp, sort and Iterator::min/max against the same on u64; non-trivial = exact result does not fit in 64 bits or lies within 4 of 0 / 2^64 (or for bit/compare ops: mixed bits / close or sign-differing operands); distinct = decoded (type, op, a, b)",
         assumptions: &["oracle is i128 arithmetic", "unchecked_* forms compared only where the exact result fits (documented to panic/wrap otherwise)"],
         subchecks: vec![
             SubCheck {
